@@ -225,6 +225,12 @@ func relItems(kind string, variant string) []model.RelItem {
 		return []model.RelItem{{Name: p + "1", Op: ">=", Ver: "1.0"}, {Name: p + "2"}, {Name: p + "3", Op: "<", Ver: "2.0-1"}, {Name: p + "4", Op: "=", Ver: "3"}}
 	case "twice":
 		return []model.RelItem{{Name: p + "1", Op: ">=", Ver: "1.2"}, {Name: p + "1", Op: "<", Ver: "2.0"}, {Name: p + "2"}}
+	case "rpmcaps":
+		// rpm capability names: parentheses are part of the name (emitted for rpm only)
+		return []model.RelItem{{Name: "perl(Foo::Bar)"}, {Name: "pkgconfig(zlib)", Op: ">=", Ver: "1.2"}, {Name: "libc.so.6()(64bit)"}, {Name: "/bin/sh"}, {Name: "config(" + p + ")", Op: "=", Ver: "1.0-1"}}
+	case "dup":
+		// one item written twice: stated twice
+		return []model.RelItem{{Name: p + "1"}, {Name: p + "1"}, {Name: p + "2", Op: ">=", Ver: "1.0"}, {Name: p + "2", Op: ">=", Ver: "1.0"}}
 	case "ownname":
 		// names that begin with the name of the package itself (the package is called pkg)
 		return []model.RelItem{{Name: "pkg-" + p}, {Name: "pkg" + p, Op: "=", Ver: "2.1"}, {Name: "pkgx" + p}, {Name: p + "-pkg"}}
@@ -477,6 +483,26 @@ func enumC02(env *engine.Env, yield func(any) bool) {
 		}
 		if !emit("rel8-many", c) {
 			return
+		}
+	}
+	for _, k := range model.RelKinds {
+		c := baseMeta()
+		c.Rel = map[string][]model.RelItem{k: relItems(k, "rpmcaps")}
+		if !yield(C02Case{Part: "rel1-rpmcaps", Format: "rpm", Cfg: c}) {
+			return
+		}
+	}
+	for _, k := range model.RelKinds {
+		// one item written twice: stated twice (an rpm header holds a relation once: the rpm writer keeps one of two
+		// identical entries, so rpm is not asked)
+		c := baseMeta()
+		c.Rel = map[string][]model.RelItem{k: relItems(k, "dup")}
+		for _, f := range Formats {
+			if f != "rpm" {
+				if !yield(C02Case{Part: "rel1-dup", Format: f, Cfg: c}) {
+					return
+				}
+			}
 		}
 	}
 	for _, variant := range []string{"plain", "versioned", "twice", "single", "ownname"} {
